@@ -242,6 +242,45 @@ func genRuntimeFacts() {
 			}
 		}
 	}
+	// every sync.Pool of the package (package-level variables and pools inside composite literals)
+	var pools []string
+	for _, e := range ents {
+		if e.IsDir() || !strings.HasSuffix(e.Name(), ".go") || strings.HasSuffix(e.Name(), "_test.go") {
+			continue
+		}
+		f := parseFile(e.Name())
+		if f == nil {
+			continue
+		}
+		ast.Inspect(f, func(n ast.Node) bool {
+			cl, isCL := n.(*ast.CompositeLit)
+			if isCL && render(cl.Type) == "sync.Pool" {
+				pools = append(pools, fmt.Sprintf("%s:%d", e.Name(), len(pools)))
+			}
+			return true
+		})
+	}
+	poolNames := []string{}
+	for _, e := range ents {
+		if e.IsDir() || !strings.HasSuffix(e.Name(), ".go") || strings.HasSuffix(e.Name(), "_test.go") {
+			continue
+		}
+		f := parseFile(e.Name())
+		if f == nil {
+			continue
+		}
+		cnt := 0
+		ast.Inspect(f, func(n ast.Node) bool {
+			if cl, isCL := n.(*ast.CompositeLit); isCL && render(cl.Type) == "sync.Pool" {
+				cnt++
+			}
+			return true
+		})
+		if cnt > 0 {
+			poolNames = append(poolNames, fmt.Sprintf("%s:%d", e.Name(), cnt))
+		}
+	}
+	sort.Strings(poolNames)
 	var usedL []string
 	for q := range used {
 		usedL = append(usedL, q)
@@ -254,6 +293,36 @@ func genRuntimeFacts() {
 	fmt.Fprintf(&out, "def executeAssignsSometimes : List String := %s\n", leanStrList(ec))
 	fmt.Fprintf(&out, "def recoverResets : List String := %s\n", leanStrList(ru))
 	fmt.Fprintf(&out, "def recoverPutsAfterResets : Bool := %v\n", putAfterResets)
+	// pooled rangers: struct fields vs what Setup assigns
+	var rangerRows []string
+	if rf := parseFile("ranger.go"); rf != nil {
+		for _, d := range rf.Decls {
+			fd, isFD := d.(*ast.FuncDecl)
+			if !isFD || fd.Name.Name != "Setup" || fd.Recv == nil || len(fd.Recv.List) != 1 || len(fd.Recv.List[0].Names) != 1 {
+				continue
+			}
+			t := fd.Recv.List[0].Type
+			if se, isSE := t.(*ast.StarExpr); isSE {
+				t = se.X
+			}
+			tn := render(t)
+			recv := fd.Recv.List[0].Names[0].Name
+			var assigned []string
+			for _, st := range fd.Body.List {
+				if as, isAS := st.(*ast.AssignStmt); isAS {
+					for _, l := range as.Lhs {
+						if se, isSE := l.(*ast.SelectorExpr); isSE && render(se.X) == recv {
+							assigned = append(assigned, se.Sel.Name)
+						}
+					}
+				}
+			}
+			fs := structFields(rf, tn)
+			rangerRows = append(rangerRows, fmt.Sprintf("(%s, %s, %s)", leanStr(tn), leanStrList(fs), leanStrList(assigned)))
+		}
+	}
+	fmt.Fprintf(&out, "/-- pooled rangers: (type, fields, fields assigned unconditionally in Setup) -/\ndef pooledRangers : List (String × List String × List String) := [%s]\n", strings.Join(rangerRows, ", "))
+	fmt.Fprintf(&out, "/-- sync.Pool literals per file (file:count) -/\ndef syncPools : List String := %s\n", leanStrList(poolNames))
 	fmt.Fprintf(&out, "def poolGetters : List String := %s\n", leanStrList(poolGetters))
 	fmt.Fprintf(&out, "def poolGettersDeferRecover : Bool := %v\n", allDefer)
 	fmt.Fprintf(&out, "def runtimeShapeOk : Bool := %v\n\n", ok)
